@@ -1102,6 +1102,15 @@ namespace link_layer {
             {
                 this->transmit_pending_security_pdus();
 
+                // Output that is already waiting (queued notifications, L2CAP responses, own LL procedures) has to be
+                // in the transmit buffer before the next connection event is planned. Otherwise peripheral latency
+                // would be applied, while there is pending outgoing data.
+                if ( state_ == state::connected )
+                {
+                    transmit_pending_control_pdus();
+                    this->transmit_pending_l2cap_output( connection_data_ );
+                }
+
                 const std::pair< bool, std::uint16_t > pending_instant = { !defered_ll_control_pdu_.empty(), defered_conn_event_counter_ };
 
                 evts.pending_outgoing_data = evts.pending_outgoing_data || this->pending_outgoing_data_available();
@@ -1121,6 +1130,7 @@ namespace link_layer {
             }
         }
 
+        // output, that was requested by the connection event callback
         if ( state_ == state::connected || state_ == state::connecting )
         {
             transmit_pending_control_pdus();
